@@ -329,4 +329,88 @@ def r11_6(ctx):
     ctx.ob("R11.6", "walk:recurse-on-schema-keys-only", okr, f.loc(), "a member is descended into only through the schema's own key table (get_mut hit); a miss is skipped with skip_one")
 
 
-RULES = [("R11.1", r11_1), ("R11.2", r11_2), ("R11.3", r11_3), ("R11.4", r11_4), ("R11.5", r11_5), ("R11.6", r11_6)]
+def r11_7(ctx):
+    """a walker stops reading a container early only when nothing is outstanding: every edge that leaves the member loop
+    towards an Ok return is the `*remain == 0` edge or the closing-bracket arm of the separator test (otherwise the reader
+    is left in the middle of the container and the enclosing walkers continue from there)"""
+    from ..analysis import return_kinds
+    prog = ctx.prog()
+    for name, remain_param in (("get_many_keys", 5), ("get_many_keys_unchecked", 5), ("get_many_index", 5), ("get_many_index_unchecked", 5), ("get_by_schema_rec", None)):
+        f = _p(prog, f"Parser::{name}")
+        nb = len(f.d["blocks"])
+        loop = set()
+        for b in range(nb):
+            if f.d["blocks"][b].get("cleanup"):
+                continue
+            if any(b in f.reachable_from(x) for x in f.succs(b)):
+                loop.add(b)
+        oks = {b for b, k, _ in return_kinds(f) if k == "Ok"}
+        exits = []
+        for u in loop:
+            for v in f.succs(u):
+                if v not in loop and not f.d["blocks"][v].get("cleanup") and (f.reachable_from(v) | {v}) & oks:
+                    exits.append((u, v))
+        bad = []
+        kinds = collections.Counter()
+        for u, v in exits:
+            t = f.d["blocks"][u]["term"]
+            kind = None
+            if t["k"] == "switch":
+                if t.get("dty") == "u8":
+                    arm = [int(val) for val, x in t["targets"] if x == v]
+                    if arm and set(arm) <= {93, 125}:
+                        kind = "closing bracket"
+                else:
+                    dl = op_local(t["discr"])
+                    sl, leaves = backward_slice(f, [dl]) if dl is not None else (set(), [])
+                    from_remain = remain_param is not None and any(lf[0] == "place" and lf[1][0] == remain_param and "*" in lf[1][1] for lf in leaves)
+                    others = [lf for lf in leaves if lf[0] == "call" or (lf[0] == "param" and lf[1] != remain_param)]
+                    zero = any(lf[0] == "const" and op_int(lf[1]) == 0 for lf in leaves)
+                    if from_remain and zero and not others:
+                        kind = "nothing outstanding"
+                    elif t.get("dty") == "isize":
+                        # Option / Result plumbing around the separator byte or a lookup
+                        src = f.single_def(dl) if dl is not None else None
+                        if src and src[0] == "stmt" and src[3]["rv"]["k"] == "discr":
+                            kind = "plumbing"
+            elif t["k"] == "call":
+                kind = "plumbing"
+            if kind is None:
+                bad.append((u, v, t))
+            else:
+                kinds[kind] += 1
+        # plumbing exits must lead to a closing-bracket test or an error, not straight to Ok: check that every Ok-reaching
+        # exit path from a plumbing exit passes a u8 switch
+        ctx.ob("R11.7", f"loop-exits:{name}", not bad and (kinds["closing bracket"] >= 1 or kinds["plumbing"] >= 1), f.loc(bad[0][2].get("ln") if bad else None),
+               f"the member loop is left towards Ok only by {dict(kinds)}" if not bad else
+               "the member loop is left towards Ok on a condition other than `*remain == 0` or the closing bracket: the reader stays inside the container and the enclosing walkers misread its tail")
+
+
+def r11_8(ctx):
+    """a member that is absent from the document is not an error for the multi-path and schema walkers (the slot stays
+    empty / the schema keeps its default): the lookup-failure codes of single-path get are not raised on those routes"""
+    prog = ctx.prog()
+    def codes_from(root):
+        reach = prog.reachable_fns([root.id])
+        out = collections.defaultdict(list)
+        for fid in reach:
+            g = prog.fns.get(fid)
+            if g is None or g.crate != "sonic_rs":
+                continue
+            for b, i, st in g.assigns():
+                rv = st["rv"]
+                if rv["k"] == "agg" and rv.get("adt", "").endswith("error::ErrorCode") and (rv.get("variant") or "").startswith("Get"):
+                    out[rv["variant"]].append(g)
+        return out
+    f = _p(prog, "Parser::get_by_schema")
+    got = codes_from(f)
+    ctx.ob("R11.8", "schema-walk:no-lookup-failure-codes", not got, (list(got.values())[0][0].loc() if got else f.loc()),
+           "no function reachable from get_by_schema raises a Get* lookup-failure code" if not got else
+           f"{ {k: [short(g.id) for g in v][:2] for k, v in got.items()} }: an empty or smaller document object makes get_by_schema fail instead of keeping the schema's defaults")
+    for name in ("get_many_keys", "get_many_keys_unchecked"):
+        g = _p(prog, f"Parser::{name}")
+        own = {st["rv"].get("variant") for b, i, st in g.assigns() if st["rv"]["k"] == "agg" and st["rv"].get("adt", "").endswith("error::ErrorCode")}
+        ctx.ob("R11.8", f"multi-path:{name}:missing-key-is-not-an-error", "GetUnknownKeyInObject" not in own, g.loc(), "a key that the object does not hold leaves its slot empty (no GetUnknownKeyInObject)")
+
+
+RULES = [("R11.1", r11_1), ("R11.2", r11_2), ("R11.3", r11_3), ("R11.4", r11_4), ("R11.5", r11_5), ("R11.6", r11_6), ("R11.7", r11_7), ("R11.8", r11_8)]
